@@ -790,6 +790,10 @@ func parseSpecFile(path, pkg string) (*SpecFile, error) {
 			if curL == nil {
 				return nil, fmt.Errorf("%s: %s outside loop", l.where, kw)
 			}
+			if kw == "decreases" && strings.TrimSpace(rest) == "*" {
+				curL.Decreases = &Clause{Kind: "decreases", Src: "*", Where: l.where, Props: curF.Props, Expr: &SExpr{Op: "int", Name: "0"}}
+				continue
+			}
 			c, err := parseClause(kw, rest, l.where, curF.Props)
 			if err != nil {
 				return nil, err
